@@ -120,6 +120,33 @@ func TestVerifC01(t *testing.T) {
 		}
 	}
 	rng.Shuffle(len(bases), func(a, b int) { bases[a], bases[b] = bases[b], bases[a] })
+	// async mode (no semi-sync, repl_mon, allowed lag): the escape hatch of the catch-up wait is legitimate for
+	// automatic failover only; every 9th base of the run is one of these (replication frozen or lazy, so the
+	// chosen node has NOT applied everything when the wait starts)
+	// plus the operator-forced failover to a named host (switch --to X --failover), which gets no escape
+	reqs = append(reqs, reqSpec{Kind: "forcedto", To: hosts[1]})
+	var abases []base
+	for _, mi := range []int{2, 0} { // master dead / alive
+		for i2 := range r2 {
+			for i3 := range r3 {
+				for ri := range reqs {
+					for _, pol := range []string{"frozen", "lazy"} {
+						abases = append(abases, base{mi, i2, i3, ri, pol + "+async", 1})
+					}
+				}
+			}
+		}
+	}
+	rng.Shuffle(len(abases), func(a, b int) { abases[a], abases[b] = abases[b], abases[a] })
+	var mixed []base
+	for i, b := range bases {
+		mixed = append(mixed, b)
+		if i%8 == 7 && len(abases) > 0 {
+			mixed = append(mixed, abases[0])
+			abases = abases[1:]
+		}
+	}
+	bases = append(mixed, abases...)
 	runs, nbase, npromo := 0, 0, 0
 	emit := func(res *vRunResult) {
 		for _, p := range res.promos {
@@ -141,8 +168,29 @@ func TestVerifC01(t *testing.T) {
 			break
 		}
 		id := fmt.Sprintf("c01-m%d-a%d-b%d-r%d-%s", b.mi, b.i2, b.i3, b.ri, b.policy)
-		sc := c01Base(id, hosts, ms[b.mi], []hostShape{r2[b.i2], r3[b.i3]}, reqs[b.ri], b.policy, b.w)
-		dry := vRun(t, &sc, vRunOpts{censusAll: true})
+		pol := strings.TrimSuffix(b.policy, "+async")
+		sc := c01Base(id, hosts, ms[b.mi], []hostShape{r2[b.i2], r3[b.i3]}, reqs[b.ri], pol, b.w)
+		if pol != b.policy {
+			sc.Cfg["semi_sync"] = false
+			sc.Cfg["async"] = true
+			sc.Cfg["async_allowed_lag"] = 1000000
+			sc.Cfg["repl_mon"] = true
+		}
+		var opts vRunOpts
+		if pol != b.policy {
+			// async mode: the master's repl_mon timestamp was published while it was alive, every server has the table
+			opts.setup = func(s *vSim) {
+				s.W.Lock()
+				for _, h := range s.W.Hosts {
+					h.ReplMonTS = 1000
+				}
+				s.W.Unlock()
+				s.Z.Put(vNS+"/"+pathMasterReplMonTS, `"1000.000"`)
+			}
+		}
+		dryOpts := opts
+		dryOpts.censusAll = true
+		dry := vRun(t, &sc, dryOpts)
 		runs++
 		nbase++
 		emit(dry)
@@ -164,7 +212,7 @@ func TestVerifC01(t *testing.T) {
 			sc2 := sc
 			sc2.Fault = f
 			sc2.ID = fmt.Sprintf("%s-%s-%s@%s#%d", id, f.Kind, f.Stmt, f.At, f.Occ)
-			res := vRun(t, &sc2, vRunOpts{})
+			res := vRun(t, &sc2, opts)
 			runs++
 			emit(res)
 			if len(res.promos)+len(res.atts) > 0 {
